@@ -150,7 +150,9 @@ class Bucket:
         """
         Generate a new id.
         """
-        rand_node_id_bin = format(random.randint(0, 2 ** (160 - len(self.prefix_id))), "0160b")
+        suffix_length = 160 - len(self.prefix_id)
+        suffix = format(random.getrandbits(suffix_length), f"0{suffix_length}b") if suffix_length else ""
+        rand_node_id_bin = self.prefix_id + suffix
         return binascii.unhexlify(format(int(rand_node_id_bin, 2), "040X"))
 
     def owns(self, node_id: bytes) -> bool:
